@@ -230,6 +230,83 @@ Section Eval.
   Theorem keval_ofZ : forall z, keval (kofZ z) = zr z.
   Proof. intros z. unfold kofZ. rewrite keval_knorm. unfold keval. cbn. ring. Qed.
 
+  (* ---- conjugation: any ring endomorphism cj with cj omega = omega^-1 (= omega^63)
+     and cj half = half commutes with kconj (on elements with at most 64 coefficients;
+     canonical forms have at most 32) ---- *)
+  Section Conj.
+    Variable cj : R -> R.
+    Hypothesis cj_0 : cj 0 = 0.
+    Hypothesis cj_1 : cj 1 = 1.
+    Hypothesis cj_add : forall x y, cj (x + y) = cj x + cj y.
+    Hypothesis cj_mul : forall x y, cj (x * y) = cj x * cj y.
+    Hypothesis cj_opp : forall x, cj (- x) = - cj x.
+    Hypothesis cj_omega : cj omega = opow 63.
+    Hypothesis cj_half : cj half = half.
+
+    Fixpoint pevalx (x : R) (p : poly) : R :=
+      match p with [] => 0 | a :: p' => zr a + x * pevalx x p' end.
+    Fixpoint xpow (x : R) (k : nat) : R := match k with O => 1 | S k' => x * xpow x k' end.
+
+    Lemma cj_zr_nat : forall n, cj (zr (Z.of_nat n)) = zr (Z.of_nat n).
+    Proof.
+      induction n as [|n IH].
+      - change (Z.of_nat 0) with 0%Z. rewrite zr_0. exact cj_0.
+      - rewrite Nat2Z.inj_succ, <- Z.add_1_r, zr_add, cj_add, IH, zr_1, cj_1. reflexivity.
+    Qed.
+
+    Lemma cj_zr : forall z, cj (zr z) = zr z.
+    Proof.
+      intros z. destruct (Z_le_gt_dec 0 z) as [H|H].
+      - rewrite <- (Z2Nat.id z H). apply cj_zr_nat.
+      - replace z with (- Z.of_nat (Z.to_nat (- z)))%Z by (rewrite Z2Nat.id; lia).
+        rewrite zr_opp, cj_opp, cj_zr_nat. reflexivity.
+    Qed.
+
+    Lemma cj_peval : forall p, cj (peval p) = pevalx (opow 63) p.
+    Proof.
+      induction p as [|a p IH]; cbn [peval pevalx].
+      - exact cj_0.
+      - rewrite cj_add, cj_mul, cj_zr, cj_omega, IH. reflexivity.
+    Qed.
+
+    Lemma cj_hpow : forall e, cj (hpow e) = hpow e.
+    Proof. induction e as [|e IH]; cbn [hpow]; [exact cj_1 | rewrite cj_mul, cj_half, IH; reflexivity]. Qed.
+
+    Lemma omega_inv : omega * opow 63 = 1.
+    Proof. change (omega * opow 63) with (opow 64). apply opow_64. Qed.
+
+    Lemma opow_compl : forall k, (k <= 64)%nat -> opow (64 - k) = xpow (opow 63) k.
+    Proof.
+      induction k as [|k IH]; intros Hk.
+      - cbn [xpow]. apply opow_64.
+      - cbn [xpow]. rewrite <- IH by lia.
+        replace (64 - k)%nat with (S (64 - S k)) by lia.
+        change (opow (S (64 - S k))) with (omega * opow (64 - S k)).
+        transitivity ((omega * opow 63) * opow (64 - S k)); [rewrite omega_inv; ring | ring].
+    Qed.
+
+    Lemma peval_pconj_tail : forall t k, (k + List.length t <= 64)%nat ->
+      peval (pconj_tail t k) = xpow (opow 63) k * pevalx (opow 63) t.
+    Proof.
+      induction t as [|a t IH]; intros k Hk; cbn [pconj_tail pevalx peval].
+      - ring.
+      - cbn [List.length] in Hk.
+        rewrite peval_padd, peval_monomial, (IH (S k)) by lia.
+        rewrite opow_compl by lia. cbn [xpow]. ring.
+    Qed.
+
+    Theorem keval_kconj : forall a, (List.length (kc a) <= 64)%nat ->
+      keval (kconj a) = cj (keval a).
+    Proof.
+      intros [c e] Hl. unfold kconj. cbn [kc ke] in *. destruct c as [|a0 t].
+      - unfold keval. cbn [kc ke peval]. rewrite cj_mul, cj_0. ring.
+      - rewrite keval_knorm. unfold keval. cbn [kc ke].
+        rewrite peval_preduce, peval_padd. cbn [peval].
+        cbn [List.length] in Hl. rewrite (peval_pconj_tail t 1) by lia.
+        rewrite cj_mul, cj_hpow, cj_add, cj_mul, cj_zr, cj_omega, cj_peval. cbn [xpow]. ring.
+    Qed.
+  End Conj.
+
 End Eval.
 
 (* The statement with every parameter visible. *)
